@@ -11,7 +11,9 @@ LEVEL = "exploration"
 RULE = (
     "one connection whose stream contains a closing message M -- refused (malformed / oversize), Connection: close, "
     "HTTP/1.0 without keep-alive, response that cannot be delimited (too few bytes, no length on 1.0/1.1), application "
-    "failure before/after output, client fault surfacing in the worker's flush (injected send errno) -- followed by "
+    "failure before/after output, Transfer-Encoding on HTTP/1.0 keep-alive, declared length without any byte, client fault "
+    "surfacing in the worker's flush (injected send errno), in the I/O thread's recv() while the only worker is busy with "
+    "another connection, or while the 100 Continue is written -- followed by "
     "{one complete request, two requests, a partial request, garbage}, arriving {in the same segment, in the next "
     "segment, after M's response started, after a delay}; lookahead {0,1,2,5}; 1-2 workers; select/poll. Schedules: "
     "complete single-pre-emption neighbourhoods (the GHSA-9298-4cf8-g4wj window is one pre-emption between readable() "
@@ -19,7 +21,10 @@ RULE = (
 )
 ASSUMPTIONS = [
     "which message is closing is known from the scenario (reference semantics of vf/sim/scenario.closes_connection and the injected fault)",
-    "for a client fault the decision point is the worker-side send() that raised; requests that started before it are not judged",
+    "for a fault in the worker's own flush the decision point is the send() that raised; requests that started before it are not judged",
+    "for a client fault seen by the I/O thread (failing recv(), unwritable 100 Continue) the decision point is the step at which a closing "
+    "flag is set or `connected` is cleared, and a request starts when a worker enters service() for it (a worker that had already passed "
+    "the channel's connected test goes on legitimately)",
 ]
 SHARD_TIMEOUT = {"quick": 600, "thorough": 3000}
 
